@@ -689,7 +689,9 @@ func (c *wsConn) outputWorker() {
 			f = c.queue[idx]
 			c.mu.Unlock()
 			verifPoint("conn.run")
+			verifBusy(1)
 			f()
+			verifBusy(-1)
 			idx++
 			c.mu.Lock()
 		}
